@@ -64,6 +64,10 @@ func (k *Kubelet) scriptFor(pod *corev1.Pod) PodScript {
 	if s, ok := k.w.Plan.PodOverride[pod.Name]; ok {
 		return s
 	}
+	if len(pod.Name) > 4 && pod.Name[:4] == "sat-" {
+		// saturation phase: long-running tasks that terminate promptly when deleted
+		return PodScript{ScheduleMs: 100, RunMs: 200, FinishMs: -1, Outcome: "succeed", TermMs: 300}
+	}
 	list := k.w.Plan.PodScripts
 	if len(list) == 0 {
 		return PodScript{ScheduleMs: 100, RunMs: 500, FinishMs: 3000, Outcome: "succeed", TermMs: 500}
